@@ -75,6 +75,7 @@ def generate(rng, tier, focus, k=None):
         tr["outfile"] = rng.random() < 0.5
         tr["scale_given"] = rng.random() < 0.8
         tr["relative"] = rng.choice([None, None, "cwd", "subdir"])
+        tr["itp_style"] = rng.choice([0, 0, 1, 2, 3, 4, 5])
         return tr
     # discovery: which species are complete among the candidates, which are explicit, which excluded
     status = {}
@@ -89,7 +90,8 @@ def generate(rng, tier, focus, k=None):
     tr["exclude_bogus"] = rng.random() < 0.2
     tr["distractors"] = {"txt": rng.random() < 0.5, "absent_species": rng.random() < 0.5, "system_in_list": rng.random() < 0.5,
                          "start_coordinates": rng.random() < 0.5, "uppercase_ext": rng.random() < 0.2,
-                         "near_miss": rng.random() < 0.4, "dotted_names": rng.random() < 0.3}
+                         "near_miss": rng.random() < 0.4, "dotted_names": rng.random() < 0.3,
+                         "itp_style": rng.choice([0, 0, 1, 2, 3, 4, 5]), "other_spelling": rng.random() < 0.5}
     tr["list_seed"] = rng.randrange(2 ** 31)
     tr["set_seeds"] = [rng.randrange(2 ** 31) for _ in range(3)]
     tr["hashseeds"] = [rng.randrange(1, 4000) for _ in range(2)]
@@ -188,7 +190,7 @@ def exec_equiv(trace, ctx):
     relative = trace.get("relative")
     wd = os.path.join(d, "w") if relative == "subdir" else d        # where the files live; the tool's cwd is always d
     os.makedirs(wd, exist_ok=True)
-    paths = W.write_world(wd, world)
+    paths = W.write_world(wd, world, itp_style=int(trace.get("itp_style") or 0))
     triples = [(paths["species"][s]["top_start"], paths["species"][s]["gro_end"], paths["species"][s]["top_end"])
                for s in trace["order"]]
     as_arg = (lambda p_: os.path.relpath(p_, d)) if relative else (lambda p_: p_)
@@ -273,7 +275,8 @@ def exec_equiv_shipped(trace, ctx):
 
 def build_candidates(trace, d):
     world = trace["world"]
-    paths = W.write_world(d, world, dotted=bool(trace["distractors"].get("dotted_names")))
+    paths = W.write_world(d, world, dotted=bool(trace["distractors"].get("dotted_names")),
+                          itp_style=int(trace["distractors"].get("itp_style") or 0))
     status = trace["status"]
     cands = []
     explicit = []
@@ -284,7 +287,11 @@ def build_candidates(trace, d):
         if st == "explicit":
             explicit.append([p["top_start"], p["gro_end"], p["top_end"]])
             if s % 2 == 0:
-                cands += [p["top_start"], p["gro_end"], p["top_end"]]     # listed as well: must not be re-added
+                # listed as well: must not be re-added -- also when the list spells the same files differently ("dir/./file")
+                listed = [p["top_start"], p["gro_end"], p["top_end"]]
+                if trace["distractors"].get("other_spelling"):
+                    listed = [os.path.join(os.path.dirname(x), ".", os.path.basename(x)) for x in listed]
+                cands += listed
             continue
         cands.append(p["top_start"])
         if st == "complete":
